@@ -88,6 +88,17 @@ def gen_graph(rnd):
     return {"frags": frags, "insts": insts, "links": links, "nin": next_in, "nout": next_out}
 
 
+def wide_graph(nin):
+    """an adder chain over nin external inputs (nin - 1 instances of a two-input fragment): collapsed on one processor it needs nin
+    processor inputs, more than ten when nin > 10"""
+    add2 = {"name": "add2", "resin": [0, 1], "resout": [0], "body": [("add", 0, 1)], "nreg": 2}
+    links = [(("ext", 0), ("inst", 0, 0)), (("ext", 1), ("inst", 0, 1))]
+    for k in range(1, nin - 1):
+        links += [(("inst", k - 1, 0), ("inst", k, 0)), (("ext", k + 1), ("inst", k, 1))]
+    links.append((("inst", nin - 2, 0), ("ext", 0)))
+    return {"frags": [add2], "insts": [0] * (nin - 1), "links": links, "nin": nin, "nout": 1}
+
+
 def partitions(rnd, n, k):
     """k partitions of range(n) into ordered lists (index order is topological): everything on one CP, one CP each, random ones"""
     out = [[list(range(n))], [[i] for i in range(n)]]
@@ -194,6 +205,13 @@ def run(res, a):
         xs = [rnd.randrange(1 << min(rsize, 10)) for _ in range(g["nin"])]
         for part in partitions(rnd, len(g["insts"]), 3 if a.tier == "quick" else 5):
             cases.append((g, part, rsize, xs))
+    # many externally fed ports on one processor (input indices of two digits)
+    for nin in ((12,) if a.tier == "quick" else (11, 12, 17)):
+        g = wide_graph(nin)
+        xs = [rnd.randrange(1, 20) for _ in range(nin)]
+        ni = nin - 1
+        for part in ([list(range(ni))], [list(range(ni // 2)), list(range(ni // 2, ni))], [[i] for i in range(ni)]):
+            cases.append((g, part, 16, xs))
     if a.replay:
         rp = json.load(open(a.replay))["replay"]
         cases = [(rp["graph"], rp["partition"], rp["rsize"], rp["inputs"])]
